@@ -13,7 +13,7 @@ RULE = ("single-thread libovni programs run through the rtdrv interpreter: proc_
         "ovni_payload_add calls totalling 0 or 2..16 bytes), jumbo-emit (size 0 .. beyond the buffer capacity, "
         "pattern data), flush, mark set/push/pop; libovni and driver built with ASan; 40% of the runs under an LD_PRELOAD shim that turns every write() into a real short write; half of the programs are boundary-targeted: a filler jumbo "
         "brings the 2 MiB buffer to MAX-d (d in 0..64, every residue of the thresholds) before 1-4 probe events of "
-        "every size class; ending flush, thread_free, proc_fini; plus free-running programs of 2-8 threads with multi-MiB streams whose thread_free calls are released together by a barrier (OVNI_TMPDIR relocation running concurrently).  Oracle: stream.obs decoded by the independent "
+        "every size class; ending flush, thread_free, proc_fini; one program in five is a re-run into a trace directory that already holds a stream of the same thread; plus free-running programs of 2-8 threads with multi-MiB streams whose thread_free calls are released together by a barrier (OVNI_TMPDIR relocation running concurrently).  Oracle: stream.obs decoded by the independent "
         "codec = 8-byte header + exactly the emitted events, in call order, byte for byte (library-stamped mark "
         "clocks inside the call bracket), the only extra events being payload-less OF[ / OF] markers.  Emits the "
         "library refuses (too large) are valid outcomes.  Non-trivial = the program crossed the buffer boundary "
@@ -108,8 +108,11 @@ def programs(draw):
                 ops.append(["jumbo", "OB.", draw(clocks), n, draw(st.integers(0, 255))])
             probes = draw(st.lists(one_op(), min_size=1, max_size=4))
             ops += probes
+    # one case in five first runs ANOTHER program with the same loom/pid/tid into the
+    # same trace directory (a re-run): the stream must still hold only this run's events
+    prev = draw(st.lists(one_op(), min_size=0, max_size=10)) if draw(st.integers(0, 4)) == 0 else None
     return {"ops": ops, "tmpdir": draw(st.integers(0, 4)) == 0,
-            "short": draw(st.sampled_from([None, None, None, "half", "one"]))}
+            "short": draw(st.sampled_from([None, None, None, "half", "one"])), "prev": prev}
 
 
 def script_lines(case, tid=77):
@@ -132,6 +135,11 @@ def run(case, ctx):
     d = ctx.newdir()
     try:
         env = rt.shim_env(ctx.shared["shim"], short=case["short"]) if case.get("short") else None
+        if case.get("prev") is not None:
+            r0 = rt.run_script(ctx.shared["rtdrv"], script_lines({"ops": case["prev"]}), os.path.join(d, "prev"),
+                               tmpdir_mode=case.get("tmpdir", False), tracedir=os.path.join(d, "trace"))
+            if r0.res.kind != "ok":
+                raise Violation("driver did not finish (previous run): %s" % r0.res.brief())
         rr = rt.run_script(ctx.shared["rtdrv"], lines, d, tmpdir_mode=case.get("tmpdir", False), env=env)
         if rr.res.kind != "ok":
             raise Violation("driver did not finish: %s" % rr.res.brief())
@@ -153,6 +161,8 @@ def run(case, ctx):
         crossed = len(data) > MAX or any(e.mcv == "OF[" for e in dec[:-2])
         sizes = {len(e.payload) for e in dec if not e.jumbo}
         cls = ["tmpdir" if case.get("tmpdir") else "direct"]
+        if case.get("prev") is not None:
+            cls.append("rerun-into-existing-trace")
         if case.get("short"):
             cls.append("short-writes:" + case["short"])
         if refused:
